@@ -51,7 +51,19 @@ pub fn channel() -> (Sender, Receiver) {
 impl Sender {
     pub fn notify(&mut self) {
         self.0.set.store(true, Relaxed);
+        #[cfg(leptos_verif)]
+        crate::verif_hooks::yield_point("notify:stored");
         self.0.waker.wake();
+    }
+}
+
+#[cfg(leptos_verif)]
+impl Sender {
+    /// Verification hook: a second handle on the same channel (the real code
+    /// keeps the single `Sender` behind a lock; the harness also exercises
+    /// unserialised `notify` calls).
+    pub(crate) fn verif_clone(&self) -> Self {
+        Sender(Arc::clone(&self.0))
     }
 }
 
@@ -64,6 +76,8 @@ impl Stream for Receiver {
     ) -> Poll<Option<Self::Item>> {
         if let Some(inner) = self.0.upgrade() {
             inner.waker.register(cx.waker());
+            #[cfg(leptos_verif)]
+            crate::verif_hooks::yield_point("recv:registered");
 
             if inner.set.swap(false, Relaxed) {
                 Poll::Ready(Some(()))
